@@ -55,3 +55,22 @@ def all_iarf(unc, prefix, val, exclude=()):
     return "".join("%s=%s\n" % (o["name"], val) for o in registry(unc)
                    if o["kind"] == "iarf" and o["name"].startswith(prefix) and o["name"] not in exclude
                    and not NOT_WS.match(o["name"]))
+
+
+NOT_ANY = re.compile(r"^(debug_|disable_processing_|enable_processing_|processing_cmt_as_regex|utf8_|input_tab_size|"
+                     r"string_escape_char|use_options_overriding|include_category_|pp_\w*ignore|pp_unbalanced_if_action|"
+                     r"pp_warn_unbalanced_if|warn_level_tabs_found|tok_split_gte|enable_digraphs|nl_max$)")
+
+
+def any_options(unc):
+    return [o for o in registry(unc) if not NOT_ANY.match(o["name"]) and o["kind"] != "string"]
+
+
+def random_any_config(rng, unc, n=None, base=None):
+    """in-range values for n random options of every kind, code-modifying and comment options included"""
+    opts = any_options(unc)
+    n = n if n is not None else rng.choice([3, 8, 20, 60])
+    lines = list(base or [])
+    for o in rng.sample(opts, min(n, len(opts))):
+        lines.append("%s=%s" % (o["name"], value(rng, o)))
+    return "\n".join(lines) + "\n"
